@@ -174,6 +174,27 @@ func (l *Lib) headArity(h b6.Expression) (arity int, variadic bool, known bool) 
 	return 0, false, false
 }
 
+// hasLiteralHead reports whether e contains a call whose function is a literal.
+func hasLiteralHead(e b6.Expression) bool {
+	switch x := e.AnyExpression.(type) {
+	case b6.LambdaExpression:
+		return hasLiteralHead(x.Expression)
+	case b6.CallExpression:
+		if _, ok := x.Function.AnyExpression.(b6.AnyLiteral); ok {
+			return true
+		}
+		if hasLiteralHead(x.Function) {
+			return true
+		}
+		for _, a := range x.Args {
+			if hasLiteralHead(a) {
+				return true
+			}
+		}
+	}
+	return false
+}
+
 func queryLiterals(e b6.Expression, out *[]string) {
 	switch x := e.AnyExpression.(type) {
 	case b6.QueryExpression:
@@ -304,7 +325,7 @@ func (l *Lib) classifyLambda(lam b6.LambdaExpression) string {
 	if !known {
 		return "eta:function-of-unknown-arity"
 	}
-	if !variadic && arity != len(call.Args) {
+	if arity != len(call.Args) {
 		return "eta:arity-of-function-differs"
 	}
 	if i == len(call.Args) {
@@ -354,7 +375,7 @@ func (l *Lib) Simplified(in b6.Expression) (s b6.Expression, panicClass string, 
 }
 
 // judge22 compares original and simplified outcomes (reference and VM).
-func judge22(t *Tally, what, pTxt, sTxt, reason string, staticBad bool, refP, refS Outcome, evP, evS Events, vmP, vmS Outcome) {
+func judge22(t *Tally, what, pTxt, sTxt, reason string, staticBad, literalHead bool, refP, refS Outcome, evP, evS Events, vmP, vmS Outcome) {
 	semantic := !Agree(refP, refS)
 	if semantic {
 		t.Outcome(what + "CHANGED-MEANING:" + reason)
@@ -387,6 +408,14 @@ func judge22(t *Tally, what, pTxt, sTxt, reason string, staticBad bool, refP, re
 		// the static check already reported the unbound / re-bound parameter that
 		// makes the VM reject or mis-evaluate the simplified tree
 		t.Outcome(what + "vm-differs(see static violation):" + reason)
+		return
+	}
+	if literalHead {
+		// U3: Simplify turned the function of a call into a literal (eg `(keyed "k")()` => `[#k]()`); the
+		// reference interpreter rejects that call when it is evaluated, the VM when it is compiled, which
+		// differs only inside lambda bodies that are never entered.
+		t.Outcome(what + "unsettled(U3):literal-in-function-position-rejected-at-compile-time:" + reason)
+		t.R.Count("unsettled-disagreements", 1)
 		return
 	}
 	if evP.Escaped || evS.Escaped || evP.VariadicPartial || evS.VariadicPartial {
@@ -423,6 +452,7 @@ func (l *Lib) Check22(t *Tally, build func() b6.Expression) (evals int64, change
 		t.Outcome("STATIC:" + cls + ":" + reason)
 		t.Violate("static:"+cls+":"+reason, "%s\n original:   %s\n simplified: %s", detail, pTxt, sTxt)
 	}
+	literalHead := hasLiteralHead(s) && !hasLiteralHead(p)
 	refP, evP := l.RunRef(p)
 	if refP.ErrCat == "fuel" {
 		t.Outcome("skipped:reference-budget-exhausted")
@@ -432,7 +462,7 @@ func (l *Lib) Check22(t *Tally, build func() b6.Expression) (evals int64, change
 	vmP := l.RunVM(build())
 	vmS := l.RunVM(DeepCopy(s))
 	evals += 2
-	judge22(t, "", pTxt, sTxt, reason, staticBad, refP, refS, evP, evS, vmP, vmS)
+	judge22(t, "", pTxt, sTxt, reason, staticBad, literalHead, refP, refS, evP, evS, vmP, vmS)
 
 	// behaviour of function results: Simplify(call p 5 6 7) vs call p 5 6 7
 	cur := build
@@ -459,7 +489,7 @@ func (l *Lib) Check22(t *Tally, build func() b6.Expression) (evals int64, change
 			pvmP := l.RunVM(mk())
 			pvmS := l.RunVM(DeepCopy(ps))
 			evals += 2
-			judge22(t, "probe:", Print(pp), Print(ps), reason, staticBad, prefP, prefS, pevP, pevS, pvmP, pvmS)
+			judge22(t, "probe:", Print(pp), Print(ps), reason, staticBad, literalHead, prefP, prefS, pevP, pevS, pvmP, pvmS)
 			if set == 0 {
 				r = prefP
 				next = mk
